@@ -16,7 +16,7 @@
     the nesting depth; [jok]/[xok] are false when it does not suffice, so
     EFuel is impossible in scope. *)
 From Asn1V Require Import Base.Prelude Syntax.Asn1 Text.Universe Text.Json Text.Xml
-     Text.JerImpl Text.XerImpl Text.JerProofs Text.XerProofs Text.Examples.
+     Text.JerImpl Text.XerImpl Text.JerProofs Text.XerProofs Text.NormSpec Text.Examples.
 Open Scope string_scope.
 Open Scope list_scope.
 Open Scope Z_scope.
@@ -92,6 +92,29 @@ Theorem xer_roundtrip_shared_partial :
 Proof. exact (fun ser par L numeric e indent fuel name t v =>
                 xer_roundtrip_bytes ser par L (of_env numeric e) indent fuel name (of_ty numeric t) (of_value v)). Qed.
 Print Assumptions xer_roundtrip_shared_partial.
+
+(** What v' is: as a Python dict the normalised SEQUENCE/SET value agrees
+    with the input on every present member (normalised recursively), holds
+    the DEFAULT for every absent DEFAULT member and has no other key; scalar
+    values are unchanged; XER and JER normalise identically. *)
+Theorem text_norm_members_spec :
+  forall (nrm : xty -> xvalue -> xvalue) ms fs,
+    nodup_str (member_names ms) = true ->
+    (forall k, In k (map fst (norm_members nrm ms fs)) -> In k (member_names ms)) /\
+    forall n t o, In (n, t, o) ms ->
+      lookup n (norm_members nrm ms fs) =
+      match lookup n fs with
+      | Some x => Some (nrm t x)
+      | None => match o with XDefault d => Some d | _ => None end
+      end.
+Proof. exact (fun nrm ms fs H => conj (norm_members_keys nrm ms fs) (norm_members_spec nrm ms fs H)). Qed.
+Print Assumptions text_norm_members_spec.
+
+Theorem text_norm_scalar_and_same :
+  forall env fuel t v,
+    xnorm env fuel t v = jnorm env fuel t v /\ (flat v = true -> jnorm env fuel t v = v).
+Proof. exact (fun env fuel t v => conj (xnorm_jnorm env fuel t v) (jnorm_flat env fuel t v)). Qed.
+Print Assumptions text_norm_scalar_and_same.
 
 (** Refutations outside the scopes (known findings / the repaired defect),
     each replayed on /repo by harness/c02.py. *)
